@@ -509,8 +509,28 @@ def cg_case_list(ctx):
         for j in range(1, k):
             if not np.any(b[1:, j]):
                 b[1, j] = 1
+        if ci % 3 != 1:
+            # ... and the slowly converging columns are many orders of magnitude SMALLER than the one that is done at once
+            b[:, 1:] = b[:, 1:] * 2.0 ** -rng.choice([27, 30, 40])
         cases.append(dict(A=A, b=b, x0=None, trans=rng.choice("NTH"), pk=["id", "jacobi"][ci % 2], restart=rng.choice([50, 1, 2]),
                           tol=1e-7, mmax=3, sparse=bool(ci % 2), exact=True, family="exact_column"))
+    for ci in range(8 if ctx.quick else 32):
+        # block right-hand sides whose columns differ by many orders of magnitude (scaled by powers of two: the arithmetic of
+        # every column is the same as unscaled): each column must converge relative to ITS OWN norm
+        cplx = ci % 3 == 2
+        n = rng.choice([4, 5, 6])
+        A = hpd_complex(rng, n) if cplx else spd(rng, n, False)
+        k = rng.choice([2, 3])
+        b = nz_cols(rint(rng, n, k, -3, 3, cplx)).astype(A.dtype)
+        sc = [1.0, 2.0 ** -rng.choice([20, 30]), 2.0 ** -rng.choice([33, 40])][:k]
+        rng.shuffle(sc)
+        b = b * np.array(sc)[None, :]
+        x0 = None
+        if ci % 4 == 1:
+            x0 = (rint(rng, n, k, -2, 2, cplx).astype(A.dtype)) * np.array(sc)[None, :]
+        cases.append(dict(A=A, b=b, x0=x0, trans=rng.choice("NTH"), pk=kinds[ci % 4], restart=rng.choice([50, 2]),
+                          tol=1e-7, mmax=3, sparse=kinds[ci % 4] in ("sor", "ilu") or bool(ci % 2), exact=False,
+                          family="scaled_columns"))
     for ci in range(4 if ctx.quick else 16):
         n = rng.choice([3, 4, 5])
         A = hpd_complex(rng, n)
